@@ -57,7 +57,7 @@ def attribute(problem, source, findings):
             continue
         if g.get("code") and g["code"] != problem.get("code"):
             continue
-        if g.get("text_re") and not re.search(g["text_re"], problem.get("text") or ""):
+        if g.get("text_re") and not re.search(g["text_re"], (problem.get("exc_type") or "") + " " + (problem.get("text") or "")):
             continue
         if g.get("source_re") and not re.search(g["source_re"], source):
             continue
@@ -155,6 +155,51 @@ def run(tier: str, replay: str | None = None):
         ccases = ["".join(rng.choice(alphabet) for _ in range(rng.randrange(0, 12))) for _ in range(60 if tier == "quick" else 600)]
         do_dispatch = True
     vseed = locals().get("vseed", lib.seed() * 7 + 1)
+
+    # per-construct counts of the program stream (the constructs the property text names)
+    import ast as _ast
+
+    construct_counts = {k: 0 for k in ("decorator", "class", "comprehension", "lambda", "star_expression", "f_string", "walrus",
+                                       "match", "async", "string_annotation", "ill_typed_call")}
+    programs_with = dict.fromkeys(construct_counts, 0)
+    for p_ in programs:
+        try:
+            tree_ = _ast.parse(p_["source"])
+        except SyntaxError:
+            continue
+        c_ = dict.fromkeys(construct_counts, 0)
+        for n_ in _ast.walk(tree_):
+            if isinstance(n_, (_ast.FunctionDef, _ast.AsyncFunctionDef, _ast.ClassDef)) and n_.decorator_list:
+                c_["decorator"] += len(n_.decorator_list)
+            if isinstance(n_, _ast.ClassDef):
+                c_["class"] += 1
+            if isinstance(n_, (_ast.ListComp, _ast.SetComp, _ast.DictComp, _ast.GeneratorExp)):
+                c_["comprehension"] += 1
+            if isinstance(n_, _ast.Lambda):
+                c_["lambda"] += 1
+            if isinstance(n_, _ast.Starred) or (isinstance(n_, _ast.keyword) and n_.arg is None) \
+                    or (isinstance(n_, _ast.Dict) and any(k is None for k in n_.keys)):
+                c_["star_expression"] += 1
+            if isinstance(n_, _ast.JoinedStr):
+                c_["f_string"] += 1
+            if isinstance(n_, _ast.NamedExpr):
+                c_["walrus"] += 1
+            if isinstance(n_, _ast.Match):
+                c_["match"] += 1
+            if isinstance(n_, (_ast.AsyncFunctionDef, _ast.Await, _ast.AsyncFor, _ast.AsyncWith)) \
+                    or (isinstance(n_, _ast.comprehension) and n_.is_async):
+                c_["async"] += 1
+            if isinstance(n_, _ast.arg) and isinstance(n_.annotation, _ast.Constant) and isinstance(n_.annotation.value, str):
+                c_["string_annotation"] += 1
+            if isinstance(n_, _ast.Call) and isinstance(n_.func, _ast.Name) and n_.func.id.startswith(("target", "helper", "take", "ps", "gen")):
+                c_["ill_typed_call"] += 1
+        for k_, v_ in c_.items():
+            construct_counts[k_] += v_
+            programs_with[k_] += 1 if v_ else 0
+    if not replay:
+        thin = sorted(k for k, v in programs_with.items() if v < 20)
+        if thin:
+            rep.harness_error(f"program stream too thin: fewer than 20 programs contain {thin} (counts {programs_with})")
 
     # 3. implementation (sharded over processes)
     nshards = 6
@@ -264,12 +309,12 @@ def run(tier: str, replay: str | None = None):
                 # the name follows "('" + text + "', " : 2 ASCII characters, the text, 3 ASCII characters
                 def widths(text):
                     return [1, 1] + [len(ch.encode("utf-8")) for ch in text] + [1, 1, 1]
-                mv = lib.coq_eval("From Coq Require Import List. Import ListNotations.\nRequire Import PV.Total.Column.",
-                                  [f"reported_col {lib.clist([str(w) + '%nat' for w in widths(t)])} {len(t) + 5}%nat" for t in ccases], name="c12c")
+                mv = lib.coq_eval("From Coq Require Import List. Import ListNotations.\nRequire Import PV.Total.Column PV.Gen.Total.",
+                                  [f"reported_col_gen column_converted {lib.clist([str(w) + '%nat' for w in widths(t)])} {len(t) + 5}%nat" for t in ccases], name="c12c")
                 for t, m, i in zip(ccases, mv, impl_cols):
                     n_corr += 1
                     if m != i:
-                        corr.append(("Total.Column.reported_col vs ast col_offset as reported by show_error", {"column_case": t}, i, m))
+                        corr.append(("Total.Column.reported_col_gen column_converted vs the column reported by show_error", {"column_case": t}, i, m))
             if impl_disp:
                 classes = sorted(impl_disp["boolability"])
                 kinds = sorted(impl_disp["annotation"])
@@ -319,6 +364,7 @@ def run(tier: str, replay: str | None = None):
         samples=[sample] if sample else [],
         traces_validated_against_impl=n_corr - len(corr),
         input_distribution={"programs": len(programs), "diagnostics": n_diag, "features": feat_hist, "diagnostic_codes": code_hist,
+                            "construct_occurrences": construct_counts, "programs_containing_construct": programs_with,
                             "enabled_configs": {"default": sum(1 for p in programs if p["enabled"] is None), "explicit": sum(1 for p in programs if p["enabled"] is not None)},
                             "oracle_problems": problem_hist, "value_ops": vops, "value_verdicts": vverdicts, "value_kinds": vkinds,
                             "emit_cases": len(ecases), "emit_crashes_predicted": sum(1 for x in impl_emit if x == "crash")},
